@@ -121,6 +121,8 @@ type Server struct {
 	// TrackManagedFields makes updates/creates/applies maintain
 	// metadata.managedFields via apimachinery's field manager.
 	TrackManagedFields bool
+	// SubresourcesFirst: discovery lists "<resource>/status" before "<resource>".
+	SubresourcesFirst bool
 	// Before is invoked (without the store lock) before each controller
 	// request is processed; it may run outside writers or return a fault.
 	Before func(r *Request) *Fault
@@ -904,9 +906,17 @@ func (s *Server) discoveryResponse(req *http.Request, pp *parsedPath) *http.Resp
 				continue
 			}
 			verbs := []string{"create", "delete", "deletecollection", "get", "list", "patch", "update", "watch"}
-			rs = append(rs, map[string]any{"name": d.Resource, "singularName": strings.ToLower(d.Kind), "namespaced": d.Namespaced, "kind": d.Kind, "verbs": verbs})
+			main := map[string]any{"name": d.Resource, "singularName": strings.ToLower(d.Kind), "namespaced": d.Namespaced, "kind": d.Kind, "verbs": verbs}
 			if d.HasStatus {
-				rs = append(rs, map[string]any{"name": d.Resource + "/status", "singularName": "", "namespaced": d.Namespaced, "kind": d.Kind, "verbs": []string{"get", "patch", "update"}})
+				sub := map[string]any{"name": d.Resource + "/status", "singularName": "", "namespaced": d.Namespaced, "kind": d.Kind, "verbs": []string{"get", "patch", "update"}}
+				if s.SubresourcesFirst {
+					// a legal, if unusual, order of a discovery document
+					rs = append(rs, sub, main)
+				} else {
+					rs = append(rs, main, sub)
+				}
+			} else {
+				rs = append(rs, main)
 			}
 		}
 		if len(rs) == 0 {
